@@ -69,6 +69,7 @@ MkBody(sc, c, api, b, dc) ==
     [] b = "dbg"   -> <<[o |-> "op", pos |-> <<>>, m |-> "", name |-> "debug", c |-> dc]>>
     [] b = "access" -> <<[o |-> "op", pos |-> <<>>, m |-> "", name |-> "access", c |-> dc]>>
     [] b = "dupcheck" -> <<[o |-> "op", pos |-> <<>>, m |-> "", name |-> "dupcheck", c |-> dc]>>
+    [] b = "probe" -> <<[o |-> "probe", pos |-> <<>>, m |-> "", name |-> "", c |-> 0]>>   \* ThreadKey::get() while the call has the key
     [] b = "clearpanic" ->   \* clear_poison() of the poisonable being held, then panic with the guard / closure still live
          <<[o |-> "op", pos |-> <<>>, m |-> "", name |-> "clear_poison", c |-> c],
            [o |-> "panic", pos |-> <<>>, m |-> "", name |-> "", c |-> 0]>>
